@@ -295,6 +295,36 @@ pub fn families(ctx: &Ctx) -> Vec<Family> {
             wide.push_str(&(0..600).map(|i| format!("W{i}")).collect::<Vec<_>>().join(", "));
             wide.push_str(" { int s = w599; int t = nosuch; }\n");
             shapes.push(wide);
+            // multiclasses whose records double with every line or level (the names are never written out):
+            // a multiclass that instantiates what has been defined of itself so far, a chain of
+            // multiclasses with two defms each, one prefix that matches in many ways, a chain of parents
+            for n in [3usize, 8, 24, 48] {
+                let mut s = String::from("multiclass M {\n  def a;\n");
+                for i in 0..n {
+                    s.push_str(&format!("  defm X{i} : M;\n"));
+                }
+                let longest: String = (0..n).rev().map(|i| format!("X{i}")).collect();
+                s.push_str(&format!("}}\ndefm T : M;\ndef u {{ defvar q = [Ta, TX1X0a, T{longest}a, Tnosuch, TX0X0a, T]; string s = TX2a.x; }}\n"));
+                shapes.push(s);
+                let mut s = String::from("multiclass K0 {\n  def a;\n  def b;\n  foreach i = [1, 2] in def NAME#\"_\"#i;\n}\n");
+                for i in 1..=n {
+                    s.push_str(&format!("multiclass K{i} {{\n  defm l : K{};\n  defm r : K{};\n}}\n", i - 1, i - 1));
+                }
+                s.push_str(&format!("defm T : K{n};\ndef u {{ defvar q = [T{}a, T{}b, T{}c, T{}_1, T{}]; }}\n", "l".repeat(n), "lr".repeat(n / 2 + 1), "l".repeat(n), "r".repeat(n), "l".repeat(n + 1)));
+                shapes.push(s);
+                let mut s = String::from("multiclass A {\n  def a;\n");
+                for _ in 0..n {
+                    s.push_str("  defm A : A;\n  defm \"\" : A;\n  defm AA : A;\n");
+                }
+                s.push_str(&format!("}}\ndefm T : A;\ndef u {{ defvar q = [T{}a, T{}b, T{}]; }}\n", "A".repeat(2 * n), "A".repeat(2 * n), "A".repeat(2 * n)));
+                shapes.push(s);
+            }
+            let mut parents = String::from("multiclass P0 { def r0; }\n");
+            for i in 1..300 {
+                parents.push_str(&format!("multiclass P{i} : P{} {{ def r{i}; }}\n", i - 1));
+            }
+            parents.push_str("multiclass Self : Self { def s; defm in : Self; }\ndefm T : P299, Self;\ndef u { defvar q = [Tr0, Tr299, Tr300, Ts, Tins, Tinins]; }\n");
+            shapes.push(parents);
             for s in shapes {
                 if !emit(ws_case(&[("root.td".into(), s.clone())], "root.td")) {
                     return;
